@@ -35,15 +35,19 @@ class AuxDataError(PybtexError):
     def __init__(self, message, context=None):
         super(AuxDataError, self).__init__(message, context.filename)
         self.context = context
+        # the context object is updated in place while parsing goes on:
+        # remember where the error was found
+        self.lineno = context.lineno
+        self.line = context.line
 
     def get_context(self):
-        if self.context.line:
-            marker = '^' * len(self.context.line)
-            return self.context.line + '\n' + marker
+        if self.line:
+            marker = '^' * len(self.line)
+            return self.line + '\n' + marker
 
     def __str__(self):
         base_message = super(AuxDataError, self).__str__()
-        lineno = self.context.lineno
+        lineno = self.lineno
         location = 'in line {0}: '.format(lineno) if lineno else ''
         return location + base_message
 
